@@ -1923,7 +1923,7 @@ class unyt_array(np.ndarray):
                 _comparison_unit,
                 _arctan2_unit,
                 _difference_units,
-            ):
+            ) or (ufunc in (floor_divide, divmod_) and u0.same_dimensions_as(u1)):
                 # check "is" equality first for speed
                 if u0 is not u1 and u0 != u1:
                     # we allow adding, multiplying, comparisons with
@@ -1994,6 +1994,9 @@ class unyt_array(np.ndarray):
                         inp0 = np.asarray(inp0) * (u0.base_value / u1.base_value)
                     else:
                         inp1 = np.asarray(inp1, dtype=new_dtype) * conv
+                    if ufunc is floor_divide:
+                        # the quotient is floored in the units of the first operand
+                        u1 = u0
             # get the unit of the result
             mul, unit = unit_operator(u0, u1)
             if unit_operator in (_multiply_units, _divide_units):
@@ -2043,6 +2046,10 @@ class unyt_array(np.ndarray):
                 )
         if unit is None:
             out_arr = np.array(out_arr, copy=_COPY_IF_NEEDED)
+        elif ufunc is divmod_ and u0.same_dimensions_as(u1):
+            # quotient of commensurable operands: a pure number; remainder: units of u0
+            quotient, rem = out_arr
+            out_arr = ret_class(quotient, Unit(registry=unit.registry)), ret_class(rem, unit)
         elif ufunc in (modf, divmod_):
             out_arr = tuple(ret_class(o, unit) for o in out_arr)
         elif out_arr.shape == ():
